@@ -289,7 +289,7 @@ Proof.
     + intros s' E. rewrite memN_app, (H2 s' E). simpl. rewrite orb_false_r. apply N.eqb_neq. apply Hs; auto.
   - intros r H. unfold drop_rules in H. apply filter_In in H. destruct H as [H Hne].
     rewrite memN_app, (rules_ok0 r H). simpl. rewrite orb_false_r. apply N.eqb_neq. intros E.
-    apply negb_true_iff in Hne. apply N.eqb_neq in Hne. congruence.
+    simpl in Hne. apply negb_true_iff in Hne. apply N.eqb_neq in Hne. apply Hne. exact E.
   - intros x H. rewrite memN_app in H. apply orb_true_iff in H. destruct H as [H|H]; auto.
     simpl in H. rewrite orb_false_r in H. apply N.eqb_eq in H. subst; auto.
   - auto.
